@@ -243,7 +243,8 @@ pub fn run(op: &str, args: &[&str]) -> Option<String> {
             // the table costs one scalar multiplication per entry: the generator keeps non-empty tables small
             let rows = n[1].saturating_sub(n[0]) as u64;
             let cols = n[3].saturating_sub(n[2]) as u64;
-            if rows * cols > 4096 {
+            // (an empty minor range does not make a huge major range free: SubKeyChecker::new still iterates over it)
+            if rows > 4096 || cols > 4096 || rows * cols > 4096 {
                 return None;
             }
             parsed_scan(args[0], &b, n[0]..n[1], n[2]..n[3])
